@@ -50,6 +50,7 @@ typedef struct
 
 } MantisCTRVec128Ctx_t;
 
+static void mantis_ctr_vec128_reset_keystream(MantisCTRVec128Ctx_t *ctx);
 static int mantis_ctr_vec128_set_counter
     (MantisCTR_t *ctr, const void *counter, unsigned size);
 
@@ -95,7 +96,7 @@ static int mantis_ctr_vec128_set_key
         return 0;
 
     /* Reset the keystream */
-    ctx->offset = MANTIS_CTR_BLOCK_SIZE;
+    mantis_ctr_vec128_reset_keystream(ctx);
     return 1;
 }
 
@@ -114,7 +115,7 @@ static int mantis_ctr_vec128_set_tweak
         return 0;
 
     /* Reset the keystream */
-    ctx->offset = MANTIS_CTR_BLOCK_SIZE;
+    mantis_ctr_vec128_reset_keystream(ctx);
     return 1;
 }
 
@@ -136,6 +137,48 @@ STATIC_INLINE void mantis_ctr_increment
         inc += ptr[0];
         ptr[0] = (uint8_t)inc;
         inc >>= 8;
+    }
+}
+
+/* Decrement a specific column in an array of row vectors */
+STATIC_INLINE void mantis_ctr_decrement
+    (SkinnyVector8x16_t *counter, unsigned column, unsigned dec)
+{
+    uint8_t *ctr = ((uint8_t *)counter) + column * 2;
+    uint8_t *ptr;
+    unsigned index;
+    for (index = 8; index > 0; ) {
+        --index;
+        ptr = ctr + (index & 0x06) * 8;
+#if SKINNY_LITTLE_ENDIAN
+        ptr += index & 0x01;
+#else
+        ptr += 1 - (index & 0x01);
+#endif
+        dec = ptr[0] - dec;
+        ptr[0] = (uint8_t)dec;
+        dec = (dec >> 8) & 1;
+    }
+}
+
+/* Resets the keystream after a key or tweak change.  Blocks of keystream
+   that were generated ahead of time but not used are discarded and their
+   counter values are used again, so that the counter sequence does not
+   depend upon how many blocks this back end generates in one go */
+static void mantis_ctr_vec128_reset_keystream(MantisCTRVec128Ctx_t *ctx)
+{
+    if (ctx->offset < MANTIS_CTR_BLOCK_SIZE) {
+        unsigned unused =
+            (MANTIS_CTR_BLOCK_SIZE - ctx->offset) / MANTIS_BLOCK_SIZE;
+        mantis_ctr_decrement(ctx->counter, 0, unused);
+        mantis_ctr_decrement(ctx->counter, 1, unused);
+        mantis_ctr_decrement(ctx->counter, 2, unused);
+        mantis_ctr_decrement(ctx->counter, 3, unused);
+        mantis_ctr_decrement(ctx->counter, 4, unused);
+        mantis_ctr_decrement(ctx->counter, 5, unused);
+        mantis_ctr_decrement(ctx->counter, 6, unused);
+        mantis_ctr_decrement(ctx->counter, 7, unused);
+        ctx->offset = MANTIS_CTR_BLOCK_SIZE;
     }
 }
 
